@@ -128,9 +128,18 @@ def run(ctx):
                     at = txt(a)
                     last = max([x.seq for x in p.ops if x.kind == 'iter_next' and x.seq < o.seq] or [-1])
                     cur = [(t, truth) for t, truth, x in ts if last < x.seq < o.seq]
-                    ok = any(t in ("%s == '.'" % at,) and not truth for t, truth in cur) and \
-                        any(t in ("%s == '..'" % at,) and not truth for t, truth in cur)
-                    ok = ok or any(t.startswith('%s in ' % at) and "'.'" in t and "'..'" in t and not truth for t, truth in cur)
+                    def differs(const):
+                        # the path established  at != const
+                        for t, truth in cur:
+                            if t in ("%s == %r" % (at, const), "%r == %s" % (const, at)) and not truth:
+                                return True
+                            if t in ("%s != %r" % (at, const), "%r != %s" % (const, at)) and truth:
+                                return True
+                            if (t.startswith('%s in ' % at) and not truth or t.startswith('%s not in ' % at) and truth) \
+                                    and repr(const) in t:
+                                return True
+                        return False
+                    ok = differs('.') and differs('..')
                 seen.add(o.line)
                 ctx.ob('T9.dotfree', rp.fq, 'a segment is appended to the result only when it is neither "." nor ".."', ok, loc=loc(rp, o.node))
     # guard of ret.pop(): truth table over list shapes
